@@ -27,7 +27,7 @@ MANIFEST = {
         "design_ref": "DESIGN.md 3/C16",
     }
 }
-PROPS = ["Nstd.Xml.Props", "Nstd.Xml.PropsDecor", "Nstd.Xml.PropsHeap"]
+PROPS = ["Nstd.Xml.Props", "Nstd.Xml.PropsDecor", "Nstd.Xml.PropsHeap", "Nstd.Xml.PropsGen"]
 LEAN_TARGETS = PROPS + ["drv_xml"]
 DRIVER = "drv_xml"
 
@@ -133,7 +133,9 @@ def gen(ctx=None, repo=None):
     GEN_FILE.parent.mkdir(parents=True, exist_ok=True)
     if not GEN_FILE.exists() or GEN_FILE.read_text() != text:
         GEN_FILE.write_text(text)
-    return True, "ok"
+    # tie by translation (round 7): skipSpace / readToken / parseText / syntaxError / isSpace / escape tables -> XmlScan.lean
+    import gen_xml
+    return gen_xml.run(repo)
 
 
 def setup():
